@@ -448,6 +448,12 @@ func newCircRun(p *circParams) *circRun {
 		// a substitute clock given as Now alone (the timer factory left to the library's default)
 		cfg.General.TimeKeeper = circuit.TimeKeeper{Now: h.Now}
 	}
+	if (p.NRun+p.NFb+p.NCirc)%4 == 2 {
+		// the time keeper split over two layers: the explicit config names the timer factory only, the clock comes
+		// from the manager's default layer (fields merge one by one)
+		cfg.General.TimeKeeper = circuit.TimeKeeper{AfterFunc: h.AfterFunc}
+		layer.General.TimeKeeper = circuit.TimeKeeper{Now: h.Now}
+	}
 	mgr := &circuit.Manager{DefaultCircuitProperties: []circuit.CommandPropertiesConstructor{func(string) circuit.Config { return layer }}}
 	h.c = mgr.MustCreateCircuit("x", cfg)
 	// a second circuit built from the same Config value (same backing arrays), with its own collectors appended over the
@@ -492,6 +498,9 @@ func (h *circRun) badErr(k int) error {
 		if k%3 == 2 {
 			return &userErr{msg: fmt.Sprintf("bad-%d", k), bad: true} // a bad request of the caller's own type
 		}
+		if k%5 == 4 {
+			return &asBadErr{msg: fmt.Sprintf("bad-%d", k)} // a foreign error that presents itself as one through As
+		}
 		return &circuit.SimpleBadRequest{Err: fmt.Errorf("bad-%d", k)}
 	})
 }
@@ -500,6 +509,19 @@ func (h *circRun) badErr(k int) error {
 type userErr struct {
 	msg string
 	bad bool
+}
+
+// asBadErr wraps nothing and has no BadRequest method; it adapts to circuit.BadRequest through the errors.As protocol
+// (an As method), the way a status error of another library would.
+type asBadErr struct{ msg string }
+
+func (a *asBadErr) Error() string { return a.msg }
+func (a *asBadErr) As(target interface{}) bool {
+	if t, ok := target.(*circuit.BadRequest); ok {
+		*t = &userErr{msg: a.msg, bad: true}
+		return true
+	}
+	return false
 }
 
 func (u *userErr) Error() string    { return u.msg }
